@@ -76,7 +76,8 @@ func NewDocInsertToArrayOperation(parent *model.Timestamp, pos int, values []int
 			nil,
 			&DocInsertToArrayBody{
 				P: parent,
-				V: values,
+				// values is the caller's variadic slice; the operation is encoded and replayed later
+				V: append([]interface{}(nil), values...),
 			},
 		),
 		Pos: pos,
@@ -111,7 +112,8 @@ func NewDocUpdateInArrayOperation(parent *model.Timestamp, pos int, values []int
 			nil,
 			&DocUpdateInArrayBody{
 				P: parent,
-				V: values,
+				// values is the caller's variadic slice; the operation is encoded and replayed later
+				V: append([]interface{}(nil), values...),
 			},
 		),
 		Pos: pos,
